@@ -31,4 +31,9 @@ pub mod ax_float {
     pub broadcast proof fn axiom_f_mul_comm(a: f64, b: f64) ensures #[trigger] f_mul(a, b) == f_mul(b, a) { }
     #[verifier::external_body]
     pub broadcast proof fn axiom_f_of_i64_finite(i: int) ensures f_finite(#[trigger] f_of_i64(i)) { }
+    // negation and absolute value only touch the sign bit
+    #[verifier::external_body]
+    pub broadcast proof fn axiom_f_neg_finite(a: f64) ensures f_finite(a) ==> f_finite(#[trigger] f_neg(a)) { }
+    #[verifier::external_body]
+    pub broadcast proof fn axiom_f_abs_finite(a: f64) ensures f_finite(a) ==> f_finite(#[trigger] f_abs(a)) { }
 }
